@@ -191,7 +191,7 @@ fn c07m_pipeline_witness() {
 // 1 material name, 2 vertices in 2 streams, 3 indices).  Layout (counts, offsets, strides, the
 // declaration's stream/type/usage tags) is concrete; the vertex and index BUFFER BYTES are symbolic.
 // =================================================================================================
-const M_TOTAL: usize = 724;
+const M_TOTAL: usize = 728;
 const M_MODEL: usize = 68;          // ModelData starts behind the 0x44-byte file header
 const M_DECL: usize = M_MODEL;      // 136 bytes of vertex declaration
 const M_STR: usize = M_DECL + 136;  // string_count(2) pad(2) string_size(4) strings(4)
@@ -204,7 +204,9 @@ const M_TAIL: usize = M_MATOFF + 4; // bone map size (4), padding amount (1), 4 
 const M_VTX: usize = M_TAIL + 133;  // = 641: vertex data of LOD 0
 const M_S0: usize = 28;             // stream 0 stride: position Single3 (12) + UV Single4 (16)
 const M_S1: usize = 8;              // stream 1 stride: UV Half2 (4) + colour ByteFloat4 (4)
-const M_IDX: usize = M_VTX + 2 * M_S0 + 2 * M_S1; // = 713: index data
+const M_GAP: usize = 4;             // the streams are NOT stored back to back: 4 bytes (symbolic) lie between stream 0 and stream 1
+const M_VLEN: usize = 2 * M_S0 + M_GAP + 2 * M_S1; // 76 bytes of vertex data
+const M_IDX: usize = M_VTX + M_VLEN; // = 717: index data
 
 fn mput<const N: usize>(buf: &mut [u8; M_TOTAL], off: usize, v: [u8; N]) {
     let mut i = 0;
@@ -214,7 +216,7 @@ fn melement(buf: &mut [u8; M_TOTAL], slot: usize, stream: u8, offset: u8, t: Ver
     let o = M_DECL + slot * 8;
     buf[o] = stream; buf[o + 1] = offset; buf[o + 2] = t as u8; buf[o + 3] = u as u8; buf[o + 4] = 0;
 }
-fn minimal_model(payload: &[u8; 78]) -> [u8; M_TOTAL] {
+fn minimal_model(payload: &[u8; M_VLEN + 6]) -> [u8; M_TOTAL] {
     let mut b = [0u8; M_TOTAL];
     // ---- file header
     mput(&mut b, 0, 0x0100_0005u32.to_le_bytes());
@@ -222,7 +224,7 @@ fn minimal_model(payload: &[u8; 78]) -> [u8; M_TOTAL] {
     mput(&mut b, 14, 1u16.to_le_bytes());                 // material count
     mput(&mut b, 16, (M_VTX as u32).to_le_bytes());       // vertex offset LOD 0
     mput(&mut b, 28, (M_IDX as u32).to_le_bytes());       // index offset LOD 0
-    mput(&mut b, 40, 72u32.to_le_bytes());                // vertex buffer size LOD 0
+    mput(&mut b, 40, (M_VLEN as u32).to_le_bytes());      // vertex buffer size LOD 0
     mput(&mut b, 52, 16u32.to_le_bytes());                // index buffer size LOD 0
     b[64] = 1;                                            // lod count
     // ---- vertex declaration
@@ -243,7 +245,7 @@ fn minimal_model(payload: &[u8; 78]) -> [u8; M_TOTAL] {
     b[M_HDR + 23] = 0x01;                                 // flags1 (a valid tag)
     // ---- LOD 0
     mput(&mut b, M_LODS + 2, 1u16.to_le_bytes());         // mesh count
-    mput(&mut b, M_LODS + 44, 72u32.to_le_bytes());       // vertex buffer size
+    mput(&mut b, M_LODS + 44, (M_VLEN as u32).to_le_bytes()); // vertex buffer size
     mput(&mut b, M_LODS + 48, 16u32.to_le_bytes());       // index buffer size
     mput(&mut b, M_LODS + 52, (M_VTX as u32).to_le_bytes());
     mput(&mut b, M_LODS + 56, (M_IDX as u32).to_le_bytes());
@@ -251,15 +253,15 @@ fn minimal_model(payload: &[u8; 78]) -> [u8; M_TOTAL] {
     mput(&mut b, M_MESH, 2u16.to_le_bytes());             // vertex count
     mput(&mut b, M_MESH + 4, 3u32.to_le_bytes());         // index count
     mput(&mut b, M_MESH + 12, 1u16.to_le_bytes());        // sub-mesh count
-    mput(&mut b, M_MESH + 24, ((2 * M_S0) as u32).to_le_bytes()); // stream 1 offset inside the LOD's vertex data
+    mput(&mut b, M_MESH + 24, ((2 * M_S0 + M_GAP) as u32).to_le_bytes()); // stream 1 offset inside the LOD's vertex data
     b[M_MESH + 32] = M_S0 as u8; b[M_MESH + 33] = M_S1 as u8; b[M_MESH + 35] = 2; // strides, stream count
     // ---- sub-mesh 0: indices 0..3
     mput(&mut b, M_SUB + 4, 3u32.to_le_bytes());
     // ---- symbolic vertex / index buffers
     let mut i = 0;
-    while i < 72 { b[M_VTX + i] = payload[i]; i += 1; }
+    while i < M_VLEN { b[M_VTX + i] = payload[i]; i += 1; }
     i = 0;
-    while i < 6 { b[M_IDX + i] = payload[72 + i]; i += 1; }
+    while i < 6 { b[M_IDX + i] = payload[M_VLEN + i]; i += 1; }
     b
 }
 
@@ -269,7 +271,7 @@ fn mdl_stub_f16_to_f32(i: u16) -> f32 { half::f16::from_bits(i).to_f32_const() }
 #[kani::unwind(80)]
 #[kani::stub(half::binary16::arch::f16_to_f32, mdl_stub_f16_to_f32)]
 fn c06_from_existing_minimal_model() {
-    let payload: [u8; 78] = kani::any();
+    let payload: [u8; M_VLEN + 6] = kani::any();
     let b = minimal_model(&payload);
     let mdl = MDL::from_existing(&b).unwrap();
     assert_eq!(mdl.lods.len(), 1);
@@ -282,7 +284,7 @@ fn c06_from_existing_minimal_model() {
     while k < 2 {
         let v = &p.vertices[k];
         let s0 = M_VTX + k * M_S0;
-        let s1 = M_VTX + 2 * M_S0 + k * M_S1;
+        let s1 = M_VTX + 2 * M_S0 + M_GAP + k * M_S1;
         // position: three floats at the start of stream 0
         assert_eq!((v.position[0].to_bits(), v.position[1].to_bits(), v.position[2].to_bits()), (f(s0), f(s0 + 4), f(s0 + 8)));
         // second UV layer: last two floats of the Single4 element
@@ -317,11 +319,29 @@ fn c06_from_existing_minimal_model() {
     assert_eq!(p.vertex_streams[1].len(), 2 * M_S1);
     let mut z = 0;
     while z < 2 * M_S1 {
-        assert_eq!(p.vertex_streams[1][z], b[M_VTX + 2 * M_S0 + z]);
+        assert_eq!(p.vertex_streams[1][z], b[M_VTX + 2 * M_S0 + M_GAP + z]);
         z += 1;
     }
     core::mem::forget(mdl);
 }
+
+/// C18: the same model cut off inside its index buffer (the header still announces the full buffer): parsing returns
+/// a failure or a value, it does not panic
+fn truncated_model(cut: usize) {
+    let payload: [u8; M_VLEN + 6] = kani::any();
+    let b = minimal_model(&payload);
+    let r = MDL::from_existing(&b[..cut]);
+    kani::cover!(r.is_none());
+    core::mem::forget(r);
+}
+#[kani::proof]
+#[kani::unwind(80)]
+#[kani::stub(half::binary16::arch::f16_to_f32, mdl_stub_f16_to_f32)]
+fn c18_model_truncated_in_index_buffer() { truncated_model(M_IDX + 3); }
+#[kani::proof]
+#[kani::unwind(80)]
+#[kani::stub(half::binary16::arch::f16_to_f32, mdl_stub_f16_to_f32)]
+fn c18_model_truncated_in_vertex_buffer() { truncated_model(M_VTX + M_S0 + 5); }
 
 // =================================================================================================
 // C07: MDL::write_to_buffer on a directly constructed version-5 model with the same shape as the
